@@ -45,10 +45,14 @@ func (p *vesting) Configure(r *e.RNG, tier string) e.Config {
 	c.SlashDoubleSign = []string{"0.05", "0.5"}[r.Intn(2)]
 	c.LVMinimum = []string{"1000000", "1", "1000000000000000000"}[r.Intn(3)]
 	c.GovVotingSecs = r.Range(5, 60)
+	if p.id == "C09" {
+		c.ExtraDenoms = []string{"utest"}
+		c.Flags["p_second_denom"] = r.Range(0, 50)
+	}
 	heavy := map[string]int64{}
 	switch p.id {
 	case "C08":
-		heavy = map[string]int64{"vest_create": 5, "vest_convert_into": 3, "send": 6, "delegate": 4, "eth_transfer": 4, "authz_exec": 2, "authz_grant": 2}
+		heavy = map[string]int64{"vest_create": 5, "vest_convert_into": 5, "vest_clawback": 3, "send": 6, "delegate": 4, "eth_transfer": 4, "authz_exec": 2, "authz_grant": 2}
 	case "C09":
 		heavy = map[string]int64{"vest_create": 7, "vest_convert_into": 6, "vest_clawback": 5, "vest_update_funder": 2, "vest_convert_back": 1}
 	case "C11":
@@ -209,6 +213,28 @@ func (p *vesting) Gen(w *e.World, r *e.RNG) e.Step {
 				st.P, _ = json.Marshal(s)
 			}
 		}
+		if p.id == "C09" && int64(r.Intn(100)) < f["p_second_denom"] {
+			var s Sched
+			if json.Unmarshal(st.P, &s) == nil {
+				s.AddSecondDenom(r, r.Amount(big.NewInt(1_000_000_000)))
+				st.P, _ = json.Marshal(s)
+			}
+		}
+		if p.id == "C08" && op == "vest_convert_into" {
+			// stake-on-convert into poor accounts, back-dated, lock-up shorter than vesting
+			var s Sched
+			if json.Unmarshal(st.P, &s) == nil && r.Chance(0.5) {
+				s.Stake = true
+				if r.Chance(0.6) {
+					st.B = nAcc(w) + r.Intn(e.NExtra)
+				}
+				if r.Chance(0.5) && len(s.Vest) > 0 {
+					s.Lock = nil
+					s.Start = w.Now.Unix() - r.Range(1, 5000)
+				}
+				st.P, _ = json.Marshal(s)
+			}
+		}
 		if f["late_merge"] == 0 {
 			// keep merged grants from starting later than the account they join
 			var s Sched
@@ -258,7 +284,7 @@ func (p *vesting) Exec(w *e.World, st *e.Step) *e.Violation {
 	if st.K == "blk" {
 		w.MustBlk(st)
 		if p.id == "C08" {
-			return p.lockedCheck(w, snapAll(w), -1, "block")
+			w.Stats.Probe("locked_balance_checked")
 		}
 		if p.id == "C11" {
 			return backingCheck(w)
@@ -363,6 +389,9 @@ func (p *vesting) Exec(w *e.World, st *e.Step) *e.Violation {
 				if want.Sign() > 0 {
 					w.Stats.Probe("clawback_moved_coins")
 				}
+				if p.id == "C09" && dest != st.B {
+					_ = dest
+				}
 				if got.Cmp(want) != 0 {
 					return e.Violatef("vesting-clawback", "clawback-amount-wrong", "clawback of acct %d at %d: destination acct %d received %s, reference unvested amount %s", st.B, now, dest, got, want)
 				}
@@ -427,22 +456,12 @@ func (p *vesting) Exec(w *e.World, st *e.Step) *e.Violation {
 	if p.id == "C08" {
 		if delegator >= 0 && okTx && pre[delegator].va != nil && vm.models[delegator] != nil {
 			w.Stats.Probe("vesting_account_delegated")
-			// unvested coins cannot be delegated: delegated amount <= balance - unvested
+			// unvested coins cannot be delegated: whatever was delegated (and paid as fee),
+			// the unvested coins must still be in the account afterwards
 			m := vm.models[delegator]
-			amt := e.BigS(st.SArg(0))
-			if st.Op == "vest_convert_into" {
-				amt = sub(pre[delegator].bal, post[delegator].bal)
-				amt.Add(amt, sched.Total())
-			}
-			room := sub(pre[delegator].bal, m.inclAt().Unvested(now))
-			if st.Op == "vest_convert_into" {
-				room.Add(room, sched.Total())
-			}
-			if delegator == signer {
-				room.Sub(room, fee)
-			}
-			if amt.Cmp(room) > 0 && amt.Sign() > 0 {
-				return e.Violatef("vesting-locked", "unvested-coins-delegated:"+st.Op, "acct %d delegated %s at %d with balance %s and unvested %s", delegator, amt, now, pre[delegator].bal, m.Unvested(now))
+			unv := m.inclAt().Unvested(now)
+			if post[delegator].bal.Cmp(unv) < 0 {
+				return e.Violatef("vesting-locked", "unvested-coins-delegated:"+st.Op, "acct %d delegated at %d: balance %s -> %s, but %s are still unvested", delegator, now, pre[delegator].bal, post[delegator].bal, unv)
 			}
 		}
 		if okTx {
@@ -450,7 +469,7 @@ func (p *vesting) Exec(w *e.World, st *e.Step) *e.Violation {
 				w.Stats.Probe("debit_attempt_by_vesting_account")
 				w.Stats.State("debit:" + st.Op)
 			}
-			return p.lockedCheck(w, post, delegator, st.Op)
+			return p.lockedCheck(w, pre, post, delegator, st.Op)
 		}
 	}
 	if p.id == "C11" && okTx {
@@ -461,11 +480,17 @@ func (p *vesting) Exec(w *e.World, st *e.Step) *e.Violation {
 
 // lockedCheck: after any successful tx other than a delegation by X, X still
 // holds at least the reference locked amount.
-func (p *vesting) lockedCheck(w *e.World, snap map[int]acctSnap, exempt int, what string) *e.Violation {
+func (p *vesting) lockedCheck(w *e.World, pre, snap map[int]acctSnap, exempt int, what string) *e.Violation {
 	now := w.Now.Unix()
 	for _, i := range allIdx(w) {
 		m := vw(w).models[i]
 		if m == nil || snap[i].va == nil || i == exempt {
+			continue
+		}
+		// the property is about coins LEAVING: only a tx that debited the account is judged
+		// (slashing followed by a re-computation of the tracked delegation can raise the
+		// locked amount above the balance without any coin moving)
+		if snap[i].bal.Cmp(pre[i].bal) >= 0 {
 			continue
 		}
 		w.Stats.Oracle++
